@@ -51,9 +51,9 @@ func myConfigs(thorough bool) []mycheck.Col {
 		c.DataType, c.App = dt, dt
 		return c
 	}
-	cs := []mycheck.Col{mycheck.Searchable("acrablock"), mycheck.Searchable("acrastruct"), typed("acrablock", "str")}
+	cs := []mycheck.Col{mycheck.Searchable("acrablock"), mycheck.Searchable("acrastruct"), typed("acrablock", "str"), typed("acrablock", "int32")}
 	if thorough {
-		cs = append(cs, typed("acrastruct", "bytes"), typed("acrablock", "int32"))
+		cs = append(cs, typed("acrastruct", "bytes"))
 	}
 	return cs
 }
@@ -94,8 +94,20 @@ func myParam(c mycheck.Col, t byte, v []byte) sess.MyParam {
 		fmt.Sscan(string(v), &n)
 		return mycheck.LongParam(n)
 	}
+	if c.App == "int32" && t == sess.MyTypeLongLong {
+		var n int64
+		fmt.Sscan(string(v), &n)
+		b := make([]byte, 8)
+		for i := range b {
+			b[i] = byte(uint64(n) >> (8 * uint(i)))
+		}
+		return sess.MyParam{Type: sess.MyTypeLongLong, Value: b}
+	}
 	return sess.MyParam{Type: t, Value: append([]byte{}, v...)}
 }
+
+// myEnvelope encrypts v for the owner of the column the way an application would (set by the world)
+var myEnvelope func(c mycheck.Col, v []byte) []byte
 
 type myOp struct {
 	Kind string `json:"kind"`
@@ -109,7 +121,7 @@ func myInsertKindsOf(c mycheck.Col) []string {
 		return append(append([]string{}, myInsertKinds...), "ins-envelope-literal", "ins-envelope-param")
 	}
 	if c.App == "int32" {
-		return []string{"ins-literal", "ins-varstring-param", "ins-long-param"}
+		return []string{"ins-literal", "ins-varstring-param", "ins-long-param", "ins-longlong-param"}
 	}
 	return myInsertKinds
 }
@@ -141,6 +153,9 @@ func (w *myWorld) insertOp(c mycheck.Col, how string, k int, v []byte) mycheck.O
 		op.SQL, op.Params, op.Prepared = ps, pp(myParam(c, sess.MyTypeBlob, v)), true
 	case "ins-long-param":
 		op.SQL, op.Params, op.Prepared = ps, pp(myParam(c, sess.MyTypeLong, v)), true
+	case "ins-longlong-param":
+		// go-sql-driver binds every Go integer as BIGINT
+		op.SQL, op.Params, op.Prepared = ps, pp(myParam(c, sess.MyTypeLongLong, v)), true
 	case "ins-envelope-literal", "ins-envelope-param":
 		// the application (or AcraTranslator) encrypted the value itself: a whole envelope the owner can
 		// open is written; the blind index is still that of the plaintext
@@ -180,7 +195,11 @@ func searchOps(c mycheck.Col, v []byte, thorough bool) []mycheck.Op {
 		}
 		q("eq-binary-introducer-literal", "select id from t where c = _binary"+mycheck.Quote(v))
 	}
-	q("eq-literal-reversed", "select id from t where "+lit+" = c")
+	if !(c.App == "int32" && strings.HasPrefix(lit, "-")) {
+		// (the token reader of this check does not fold the sign of a leading `-12 = c` into the
+		// literal; negative values are searched in the other spellings)
+		q("eq-literal-reversed", "select id from t where "+lit+" = c")
+	}
 	q("ne-literal", "select id from t where c != "+lit)
 	q("ne-literal-ltgt", "select id from t where c <> "+lit)
 	q("nullsafe-eq-literal", "select id from t where c <=> "+lit)
@@ -200,6 +219,15 @@ func searchOps(c mycheck.Col, v []byte, thorough bool) []mycheck.Op {
 	ps("eq-blob-param", "select id from t where c = ?", bp)
 	if c.App == "int32" {
 		ps("eq-long-param", "select id from t where c = ?", myParam(c, sess.MyTypeLong, v))
+		ps("eq-longlong-param", "select id from t where c = ?", myParam(c, sess.MyTypeLongLong, v))
+	}
+	if c.App == "bytes" && len(v) > 0 && myEnvelope != nil {
+		// the searched value is itself an envelope the application made: the index in the condition
+		// is still that of the plaintext
+		e := myEnvelope(c, v)
+		out = append(out, mycheck.Op{Kind: "eq-envelope-hex-literal", SQL: "select id from t where c = " + hexLit(e), ShadowSQL: "select id from t where c = " + lit, Protected: true, Secrets: [][]byte{v}})
+		out = append(out, mycheck.Op{Kind: "eq-envelope-blob-param", SQL: "select id from t where c = ?", Prepared: true, Params: []sess.MyParam{{Type: sess.MyTypeBlob, Value: e}},
+			ShadowSQL: "select id from t where c = ?", ShadowParams: []sess.MyParam{myParam(c, sess.MyTypeBlob, v)}, Protected: true, Secrets: [][]byte{v}})
 	}
 	ps("eq-param-and-param-lt-id", "select id from t where c = ? and ? < id", tp, mycheck.LongParam(1))
 	ps("eq-param-select-c", "select c, id from t where c = ?", bp)
@@ -343,7 +371,11 @@ func (w *myWorld) runOne(c mycheck.Col, env *sess.MyEnv, rp myReplay) []myFindin
 		if seen == nil {
 			return
 		}
-		if d := searchDiff(search.SQL, seen.SQL, sv, want); d != "" {
+		sent := sv
+		if search.Kind == "eq-envelope-hex-literal" && myEnvelopeOf != nil {
+			sent = myEnvelopeOf(search.SQL) // what stands in the statement is the envelope, not the value
+		}
+		if d := searchDiff(search.SQL, seen.SQL, sent, want); d != "" {
 			add("search/"+search.Kind+"/forwarded-statement", "%s: %.200q -> %.200q", d, search.SQL, seen.SQL)
 		}
 		// parameters: the searched value's parameter carries the index, the others are untouched
@@ -357,7 +389,8 @@ func (w *myWorld) runOne(c mycheck.Col, env *sess.MyEnv, rp myReplay) []myFindin
 						break
 					}
 					orig := search.Params[i]
-					isSearched := bytes.Equal(orig.Value, sv) || (c.App == "int32" && orig.Type == sess.MyTypeLong && i == 0 && strings.Contains(search.SQL, "c = ?"))
+					isSearched := bytes.Equal(orig.Value, sv) || (c.App == "int32" && (orig.Type == sess.MyTypeLong || orig.Type == sess.MyTypeLongLong) && i == 0 && strings.Contains(search.SQL, "c = ?")) ||
+						(strings.HasPrefix(search.Kind, "eq-envelope-") && i == 0) // the searched value travels as an envelope the application made
 					isSearched = isSearched && strings.Contains(search.Kind, "param") && !(strings.Contains(search.Kind, "update-where") && i == 0)
 					switch {
 					case isSearched && len(sv) > 0:
@@ -620,6 +653,7 @@ func mysqlReplay(r *ev.Run, ks *filesystem.KeyStore) bool {
 	var rp myReplay
 	r.LoadReplay(&rp)
 	w := &myWorld{r: r, ks: ks, thorough: true}
+	w.bindEnvelope()
 	switch rp.Part {
 	case "mysql", "mysql-cross-client":
 		for _, c := range myConfigs(true) {
@@ -648,6 +682,7 @@ func mysqlReplay(r *ev.Run, ks *filesystem.KeyStore) bool {
 // the process-wide default SQL dialect to MySQL.
 func mysqlPart(r *ev.Run, ks *filesystem.KeyStore, thorough bool) {
 	w := &myWorld{r: r, ks: ks, thorough: thorough}
+	w.bindEnvelope()
 	maxRows := 2
 	if thorough {
 		maxRows = 3
@@ -725,4 +760,28 @@ func mysqlPart(r *ev.Run, ks *filesystem.KeyStore, thorough bool) {
 	r.Set("mysql_rule", "state = multiset of stored plaintexts (<= max_rows rows over the value pool, each row written by string literal / hex literal / VAR_STRING parameter / BLOB parameter / pre-encrypted envelope); every (multiset, search statement kind, searched value) is one fresh session through the real MySQL proxy against the scripted store, compared with a plaintext reference store; distinct_nontrivial = distinct (config, row count, search kind, searched value, violated?)")
 	r.Assume("MySQL: the database end is the scripted store verif/mycheck, which evaluates substr()/convert(.., binary)/=/!=/<=>/LIKE/AND/OR/joins literally over the stored bytes",
 		"MySQL: blind index recomputed with Go's crypto/hmac + sha256 under the key store's HMAC key of the client (first byte 0x7F)")
+}
+
+func (w *myWorld) bindEnvelope() {
+	myEnvelope = func(c mycheck.Col, v []byte) []byte {
+		e, err := mycheck.Envelope(w.ks, c.Envelope, c.Owner, v)
+		if err != nil {
+			ev.Fatalf("C09 mysql: envelope: %v", err)
+		}
+		return e
+	}
+}
+
+// myEnvelopeOf extracts the bytes of the X'..' literal of an eq-envelope-hex-literal statement
+var myEnvelopeOf = func(sql string) []byte {
+	i := strings.Index(sql, "X'")
+	j := strings.LastIndex(sql, "'")
+	if i < 0 || j <= i+2 {
+		return nil
+	}
+	b, err := hex.DecodeString(sql[i+2 : j])
+	if err != nil {
+		return nil
+	}
+	return b
 }
